@@ -373,6 +373,12 @@ resume_stream!(misc_resume_ctr64le, P8w3, 8, ctr::Ctr64LE<P8w3>, ctr::CtrCore<P8
 #[cfg(not(kani))]
 resume_stream!(misc_resume_ctr128be, P16w2, 16, ctr::Ctr128BE<P16w2>, ctr::CtrCore<P16w2, ctr::flavors::Ctr128BE>);
 #[cfg(not(kani))]
+resume_stream!(misc_resume_ctr32le, P8w3, 8, ctr::Ctr32LE<P8w3>, ctr::CtrCore<P8w3, ctr::flavors::Ctr32LE>);
+#[cfg(not(kani))]
+resume_stream!(misc_resume_ctr64be, P8w3, 8, ctr::Ctr64BE<P8w3>, ctr::CtrCore<P8w3, ctr::flavors::Ctr64BE>);
+#[cfg(not(kani))]
+resume_stream!(misc_resume_ctr128le, P16w2, 16, ctr::Ctr128LE<P16w2>, ctr::CtrCore<P16w2, ctr::flavors::Ctr128LE>);
+#[cfg(not(kani))]
 resume_stream!(misc_resume_belt, P16w2, 16, belt_ctr::BeltCtr<P16w2>, belt_ctr::BeltCtrCore<P16w2>);
 #[cfg(not(kani))]
 resume_stream!(misc_resume_ofbks, P4w2, 4, ofb::Ofb<P4w2>, ofb::OfbCore<P4w2>);
